@@ -349,7 +349,7 @@ func nonNilEdge(v ssa.Value, from, to *ssa.BasicBlock, depth int) bool {
 		fn := from.Parent()
 		for _, b := range liveBlocks(fn) {
 			if x, _, nonNil, ok := nilTest(b); ok && x == v {
-				if nonNil == from || nonNil.Dominates(from) {
+				if nonNil == from || dominates(nonNil, from) {
 					// and the nil edge does not lead to `from` without reassignment: require from not reachable from nil edge
 					// except through nonNil (SSA: v itself never changes, so dominance by the non-nil successor suffices
 					// when that successor has b as its only predecessor)
@@ -511,7 +511,7 @@ func ruleReducer(r *Report) {
 				}
 				if u, ok := iff.Cond.(*ssa.UnOp); ok && u.Op == token.MUL {
 					if ia, ok := u.X.(*ssa.IndexAddr); ok && ia.X == ff && ff != nil {
-						if b.Succs[0] == bp.Block || b.Succs[0].Dominates(bp.Block) {
+						if b.Succs[0] == bp.Block || dominates(b.Succs[0], bp.Block) {
 							guarded = true
 						}
 					}
